@@ -93,13 +93,13 @@ func cmdCheck(args []string) int {
 	repo := fs.String("repo", "/repo", "repository root")
 	verifDir := fs.String("verif", "/verif", "verif root")
 	keep := fs.String("keep", "", "directory to keep SMT files in (default: temp, removed)")
-	timeout := fs.Int("timeout", 0, "per-solver timeout in seconds (default quick 10, thorough 60)")
+	timeout := fs.Int("timeout", 0, "per-solver timeout in seconds (default quick 20, thorough 60)")
 	verbose := fs.Bool("v", false, "verbose")
 	fs.BoolVar(&debugSplit, "split", false, "debugging: split postconditions into their top-level conjuncts")
 	fs.Parse(args)
 	t0 := time.Now()
 	if *timeout == 0 {
-		*timeout = 10
+		*timeout = 20
 		if *tier == "thorough" {
 			*timeout = 60
 		}
